@@ -393,6 +393,9 @@ func runCase(c map[string]any) (steps []map[string]any) {
 			rq := &vReq{in: sid, out: sid}
 			ctx, cancel := context.WithCancel(context.WithValue(context.Background(), vKey{}, rq))
 			cancels[sid] = cancel
+			if b, _ := op["precancel"].(bool); b { /* the client hung up between sending its request and being admitted */
+				cancel()
+			}
 			sl := root.With("sid", sid)
 			addr := fmt.Sprintf("s%d", sid)
 			key := string(vhex(op["key"]))
